@@ -2,7 +2,7 @@ PROP = {
     "id": "C06",
     "harness": "c06",
     "driver": "c06",
-    "n_quick": 120,
+    "n_quick": 240,
     "n_thorough": 4000,
     "harness_timeout": 2400,
     "trusted": [
